@@ -169,6 +169,18 @@ func c10Run(t *testing.T, c *choice.Stream, r *Result, opt RunOpt, forced *c10Fo
 		if conn.Window > 0 && forced == nil && c.Bool("stuck", 1, 2) {
 			stuckAfter = c.Draw("stuck.after", 1200)
 		}
+		if stuckAfter >= 0 && sc.kind == "insert" && !streaming && c.Bool("stuck.early-eos", 1, 3) {
+			// ... and before it stopped reading, the server declared the query finished:
+			// the receive loop is gone, the sender is still at it
+			for i := sc.afterHandshake; i < len(srv.Script); i++ {
+				if srv.Script[i].Label == "data" && len(srv.Script[i].Send) > 0 {
+					ns := append([]simnet.Step{}, srv.Script[:i+1]...)
+					srv.Script = append(ns, simnet.Step{Label: "eos", Send: (&SPacket{Kind: "eos"}).Encode(cf)})
+					r.Fire("server_ends_stream_early")
+					break
+				}
+			}
+		}
 		var stuckSince time.Duration = -1
 		stuckNow := func() bool {
 			if stuckAfter < 0 || conn.StopReadAt < 0 || conn.OutLen() <= conn.StopReadAt {
